@@ -685,7 +685,7 @@ func selfCheck(r *mc.Run) {
 
 func Replay(scenario string, raw json.RawMessage) []*mc.Violation {
 	var in In
-	if err := json.Unmarshal(raw, &in); err != nil {
+	if err := mc.UnmarshalInput(raw, &in); err != nil {
 		return nil
 	}
 	if v, _ := check(scenario, in); v != nil {
